@@ -5,7 +5,7 @@ use crate::imp::*;
 use serde_json::json;
 use temporal_rs::error::ErrorKind;
 use temporal_rs::options::{ArithmeticOverflow, Unit};
-use temporal_rs::{Duration, PlainDate};
+use temporal_rs::{Calendar, Duration, PlainDate};
 use tmc_ref::r1::*;
 use tmc_ref::r2::*;
 use tmc_ref::r3;
@@ -178,6 +178,11 @@ impl Space for AddSpace {
                     ]
                 };
                 out.lockstep(&format!("PlainDate::{opname}"), &model, &got, same_date, attrs);
+                if !negate {
+                    // the calendar's own entry point (public, and what the FFI exposes) on the same record
+                    let got = call(|| Calendar::default().date_add(&iso_date(date.y as i32, date.m, date.d), &dur.imp, ovi.unwrap_or(ArithmeticOverflow::Constrain)));
+                    out.lockstep("Calendar::date_add", &model, &got, same_date, attrs);
+                }
                 // non-trivial: clamp taken or rejected, or a year boundary crossed
                 let (iy, im) = balance_year_month(date.y + eff.years, date.m as i64 + eff.months);
                 if date.d > days_in_month(iy, im) || model.map(|r| r.y != date.y).unwrap_or(true) {
